@@ -33,6 +33,9 @@ func SetMapOrder(policy int, seed uint64) {
 	}
 }
 
+// MapOrderPolicy returns the installed policy.
+func MapOrderPolicy() int { return mapOrder.policy }
+
 // MapOrderSites returns how often each instrumented loop site iterated a map with >1 keys since
 // the last reset, and resets the counters.
 func MapOrderSites() map[string]int {
